@@ -23,6 +23,7 @@ class AllocGen:
         self.refs: list[str] = []
         self.views_on = views
         self.unused: set[str] = set()
+        self.joins: list[str] = []
 
     def fresh(self, p):
         self.n += 1
@@ -36,17 +37,32 @@ class AllocGen:
         if self.unused:
             bufs[0] = sorted(self.unused)[0]
         for b in bufs:
-            self.unused = {u for u in self.unused if self.site_of[u] != self.site_of[b]}
+            if not isinstance(self.site_of[b], list):  # a use through a join does not count as the direct use
+                self.unused = {u for u in self.unused if self.site_of[u] != self.site_of[b]}
         return {"k": "use", "tag": self.tag, "bufs": bufs, "sites": [self.site_of[b] for b in bufs]}
 
     def stmt(self, depth):
         r = self.r
-        w = [3 if depth == 0 else 0, 5 if self.refs else 0, (2 if self.views_on and self.allocs and depth == 0 else 0), (1 if self.views_on and self.refs and depth == 0 else 0), 1 if depth < 2 and self.refs else 0, 1 if depth < 2 and self.refs else 0]
-        k = r.choices(["alloc", "use", "view", "cast", "for", "if"], w)[0]
+        w = [3 if depth == 0 else 0, 5 if self.refs else 0, (2 if self.views_on and self.allocs and depth == 0 else 0), (1 if self.views_on and self.refs and depth == 0 else 0), 1 if depth < 2 and self.refs else 0, 1 if depth < 2 and self.refs else 0, (2 if self.views_on and len(self.refs) >= 2 and depth == 0 else 0)]
+        k = r.choices(["alloc", "use", "view", "cast", "for", "if", "select"], w)[0]
+        if k == "select":
+            # a join: one value that is one of two buffers (same type) depending on a run-time condition
+            a = r.choice(self.refs)
+            same = [x for x in self.refs if x != a and self.types[x] == self.types[a]]
+            if not same:
+                k = "use"
+            else:
+                b = r.choice(same)
+                nm = self.fresh("j")
+                self.types[nm] = self.types[a]
+                self.refs.append(nm)
+                self.site_of[nm] = [self.site_of[a], self.site_of[b]]
+                self.joins.append(nm)
+                return {"k": "select", "name": nm, "cond": r.choice([0, 1]), "a": a, "b": b}
         if k == "alloc":
             nm = self.fresh("b")
             el = r.choice(list(ELB))
-            n = r.choice([4, 8, 16, 16, 24, 64])
+            n = r.choice([3, 4, 5, 8, 16, 16, 24, 64])
             self.tag += 1
             self.types[nm] = f'memref<{n}x{el}, "L1">'
             self.allocs.append(nm)
@@ -60,7 +76,7 @@ class AllocGen:
             src = r.choice(self.allocs)
             n = int(self.types[src].split("<")[1].split("x")[0])
             el = self.types[src].split("x")[1].split(",")[0]
-            ln = r.choice([1, 2, 4])
+            ln = r.choice([x for x in (1, 2, 4) if x <= n])
             off = r.randrange(0, n - ln + 1)
             nm = self.fresh("v")
             self.types[nm] = f'memref<{ln}x{el}, strided<[1], offset: {off}>, "L1">'
@@ -83,15 +99,21 @@ class AllocGen:
         body = [self.stmt(0) for _ in range(self.r.randint(4, 14))]
         while self.unused:
             body.append(self.use())
+        for j in self.joins:
+            # a joined value is used once more at the very end, after every later allocation
+            if self.r.random() < 0.7:
+                self.tag += 1
+                body.append({"k": "use", "tag": self.tag, "bufs": [j], "sites": [self.site_of[j]]})
         if not self.allocs:
             body.insert(0, self.stmt(0))
             body.append(self.use())
         return {"body": body, "types": self.types}
 
 
-def emit(ast) -> str:
+def emit(ast, p=(0, 0)) -> str:
     L = []
     T = ast["types"]
+    joined: dict = {}  # join name -> resolved source-level site for these conditions
 
     def e(ind, s):
         L.append("  " * ind + s)
@@ -105,8 +127,10 @@ def emit(ast) -> str:
                 e(ind, f'{s["name"]} = memref.subview {s["src"]}[{s["off"]}][{s["len"]}][1] : {T[s["src"]]} to {T[s["name"]]}')
             elif k == "cast":
                 e(ind, f'{s["name"]} = builtin.unrealized_conversion_cast {s["src"]} : {T[s["src"]]} to {T[s["name"]]}')
+            elif k == "select":
+                e(ind, f'{s["name"]} = arith.select %p{s["cond"]}, {s["a"]}, {s["b"]} : {T[s["name"]]}')
             elif k == "use":
-                sites = ", ".join(f"{x} : i64" for x in s["sites"])
+                sites = ", ".join(f"{x} : i64" for x in (joined.get(b, x_) for b, x_ in zip(s["bufs"], s["sites"])))
                 e(ind, f'"test.op"({", ".join(s["bufs"])}) {{vtag = {s["tag"]} : i64, vsites = [{sites}]}} : ({", ".join(T[b] for b in s["bufs"])}) -> ()')
             elif k == "for":
                 e(ind, f'scf.for {s["iv"]} = %c0 to %c{s["trips"]} step %c1 {{')
@@ -120,6 +144,27 @@ def emit(ast) -> str:
                     stmts(ind + 1, s["else"])
                 e(ind, "}")
 
+    site_of_name: dict = {}
+
+    def scan(body):
+        for s in body:
+            if s["k"] == "alloc":
+                site_of_name[s["name"]] = s["site"]
+            elif s["k"] in ("view", "cast"):
+                site_of_name[s["name"]] = site_of_name.get(s["src"])
+            elif s["k"] == "select":
+                site_of_name[s["name"]] = site_of_name.get(s["a"] if p[s["cond"]] else s["b"])
+                joined[s["name"]] = site_of_name[s["name"]]
+            for key in ("body", "then", "else"):
+                scan(s.get(key, []))
+
+    scan(ast["body"])
+    # views / casts of joins inherit the resolved site
+    for s_ in _flat(ast["body"]):
+        if s_["k"] in ("view", "cast") and site_of_name.get(s_["name"]) is not None:
+            src = s_["src"]
+            if src in joined:
+                joined[s_["name"]] = joined[src]
     e(0, "builtin.module {")
     e(1, "func.func @f(%p0 : i1, %p1 : i1) {")
     for c in range(3):
@@ -129,6 +174,13 @@ def emit(ast) -> str:
     e(1, "}")
     e(0, "}")
     return "\n".join(L)
+
+
+def _flat(body):
+    for s in body:
+        yield s
+        for key in ("body", "then", "else"):
+            yield from _flat(s.get(key, []))
 
 
 def shrink_body(body):
